@@ -261,6 +261,9 @@ func vfPairSetup(cfg vfPairCfg) *vfPair {
 				p.bad("C10:empty-datagram", "%s handed an empty datagram to the socket", who)
 			}
 			if msg := tr.observe(data); msg != "" {
+				if tr.lastSig == "frame-malformed" {
+					p.bad("C08:session-datagram-does-not-open-under-an-independent-implementation", "%s datagram #%d: %s", who, tr.n, msg)
+				}
 				p.bad("C09:"+tr.lastSig, "%s datagram #%d: %s", who, tr.n, msg)
 			}
 		}
